@@ -177,6 +177,47 @@ SEEDS = {
    "a rows event with zero rows (rendered as a query event), or an event with both SQL and rows"),
  "C06-errno-1053-as-eof": ("C06", "readBinlogEvent: an ERR packet decoded to *mysql.MySQLError with Number 1053 is turned into the EOF sentinel",
    "the master ends the dump with an ERR packet whose errno is exactly 1053 (any message) on a connection that produces the driver's error type"),
+ # ---- round e ----
+ "C01-later-format-descriptions-ignored": ("C01", "parseEvents: every FORMAT_DESCRIPTION after the first is skipped",
+   "a dump that crosses a rotation into a file whose format description differs (checksum algorithm switched)"),
+ "C02-category-prefix-cut-to-8": ("C02", "GetStatementCategory: SQL cut to 8 bytes before the first-word lookup (the bound should be 9)",
+   "an unknown statement whose first word is longer than 8 bytes and starts with `rollback` or `truncate`, inside an open transaction"),
+ "C03-pos-read-back-from-transaction": ("C03", "commit closure: pos is read back from the *Transaction handed to the handler",
+   "a handler that modifies / recycles the delivered Transaction (e.g. *tran = Transaction{}) before the parser reads NextPosition back"),
+ "C04-deferred-writeback-zero-pos": ("C04", "Stream: position write-back as a defer registered before startDumpFromBinlogPosition",
+   "an attempt whose dump request fails, followed by another attempt (same source change as C07-deferred-writeback-zero-pos)"),
+ "C05-close-nils-dc": ("C05", "close(): s.dc = nil after dc.Close()",
+   "an ERR packet already received (or an event just handed off) when close() runs: the reader calls a method on the nil connection; data race on s.dc"),
+ "C06-stop-event-masks-later-errors": ("C06", "reader: after a STOP_EVENT has passed, any later read failure is replaced by the EOF sentinel",
+   "a dump that contains a STOP_EVENT, continues, and later ends with a lost connection or a master ERR packet"),
+ "C07-writeback-only-on-success": ("C07", "Stream: SetBinlogPosition(pos) only after the error check (same idea as C04-position-writeback-only-on-success)",
+   "an attempt that accepts a transaction and then fails in parseEvents, followed by another Stream call"),
+ "C08-shared-absent-column-placeholder": ("C08", "tableCache keeps one *ColumnData placeholder per absent column and hands it out in every row / event / transaction",
+   "partial row images with the same absent column occurring twice and a handler that writes to the column it received"),
+ "C09-bitcount-bytewise-popcount": ("C09", "Bitmap.BitCount counts set bits byte-wise, including the unused bits of the last byte",
+   "column count not a multiple of 8, padding bits of the presence bitmap set to 1, and a partial row image"),
+ "C10-float-integer-fast-path-negzero": ("C10", "FLOAT/DOUBLE: integral values printed through strconv.AppendInt(int64(f))",
+   "a cell whose bits are exactly negative zero: decodes to \"0\", which parses back to +0"),
+ "C11-fraction-leftover-by-remaining-bytes": ("C11", "DECIMAL fraction: full-group loop bounded by `pos+4 <= l`, leftover keyed by the remaining bytes",
+   "scale % 9 in {7, 8}: the 4-byte leftover group is printed as a full 9-digit group"),
+ "C12-zero-timestamp2-drops-fraction": ("C12", "TIMESTAMP2: early return of the zero text for second == 0, skipping the fractional digits",
+   "a zero TIMESTAMP(fsp) with fsp 1..6"),
+ "C13-char-prefix-by-metadata-bits": ("C13", "CellBytes CHAR/BINARY: 2-byte prefix chosen by `metadata&0x3000 == 0` instead of max > 255",
+   "a CHAR/BINARY column whose declared maximum is 256..767 bytes"),
+ "C14-large-offsets-read-as-small": ("C14", "printJSONValueEntry: out-of-line value offsets always read as 2 bytes",
+   "a large-format container with an out-of-line value at offset >= 65536"),
+ "C15-metadata-length-one-byte": ("C15", "TableMap(): the metadata block length read as a single byte instead of a length-encoded integer",
+   "a table whose metadata block is 251 bytes or longer (126+ VARCHAR columns)"),
+ "C16-dblen-byte-wraparound": ("C16", "Query(): SQL offset computed as dbPos + int(dbLen+1) in 8-bit arithmetic",
+   "a query event whose database name is exactly 255 bytes long"),
+ "C17-empty-event-skipped-before-gate": ("C17", "parseEvents: `if len(ev.Bytes()) == 0 { continue }` above the validity gate",
+   "an event truncated to length 0 inside an open transaction"),
+ "C18-contains-empty-fastpath": ("C18", "Contains: `if len(set) == 0 { return false }`",
+   "both sets empty: {}.Contains({}) must be true"),
+ "C19-gtid-event-gno-uint32": ("C19", "mysql56BinlogEvent.GTID(): sequence number read with Uint32",
+   "a GTID event whose sequence number is >= 2^32"),
+ "C20-marshal-pooled-buffer": ("C20", "Transaction.MarshalJSON encodes into a sync.Pool buffer and returns a slice into it",
+   "MarshalJSON called directly, the result kept, and another transaction marshalled before it is consumed"),
 }
 
 def parse_detect(path):
